@@ -82,3 +82,72 @@ Definition sampled_by (pool : trace) (i o p : nat) : Prop :=
 Definition particles_local (pool : trace) (n : node) : Prop :=
   forall i o c, In (o, c) (kids (nth i (acts n) act0)) -> Forall (sampled_by pool i o) (bel c).
 Definition particles_ok (pool : trace) : node -> Prop := tree_all (particles_local pool).
+
+(* ---------------- particles, full statement: "particle beliefs contain only states consistent with
+   the history".  Every particle p of the node reached from its parent by (action i, observation o)
+   is the next state of a logged call sampleSOR(q, i) = (p, o, _) whose state argument q is a particle
+   of the PARENT's belief — so, by induction along the path, every particle is reachable from a root
+   particle under exactly the node's action/observation history. ------------------------------- *)
+Definition pred_by (pool : trace) (parent_bel : list nat) (i o p : nat) : Prop :=
+  exists e, In e (ev0 :: pool) /\ In (es e) parent_bel /\ ea e = i /\ eo e = o /\ es1 e = p.
+Definition particles_full_local (pool : trace) (n : node) : Prop :=
+  forall i o c, In (o, c) (kids (nth i (acts n) act0)) -> Forall (pred_by pool (bel n) i o) (bel c).
+Definition particles_full (pool : trace) : node -> Prop := tree_all (particles_full_local pool).
+
+(* The machine takes the state it simulates from by threading (root particle, then each sampled s1);
+   the logged state argument [es] of a call is only read at the root.  A log is COHERENT when every
+   call made inside the tree was logged with the state the planner was carrying, and every simulation
+   starts from a particle of the root belief.  This is a decidable property of (tree, log); the driver
+   evaluates this very function on every real log. *)
+Definition memb (x : nat) (l : list nat) : bool := existsb (Nat.eqb x) l.
+
+Fixpoint pomcp_coh (A : nat) (term : nat -> bool) (fuel h d : nat) (b : node) (s : nat) (tr : trace) : bool :=
+  match fuel with
+  | 0 => true
+  | S fuel' =>
+    let (e, tr1) := next tr in
+    Nat.eqb (es e) s &&
+    match find_kid (eo e) (kids (nth (ea e) (acts b) act0)) with
+    | None => true
+    | Some c =>
+      if (d + 1 <? h) && negb (term (es1 e))
+      then pomcp_coh A term fuel' h (d + 1)
+                     (allocate A (Node (nN c) (bel c ++ [es1 e]) (acts c))) (es1 e) tr1
+      else true
+    end
+  end.
+
+Fixpoint pomcp_coh_loop A term disc rl (iters h : nat) (g : node) (tr : trace) : bool :=
+  match iters with
+  | 0 => true
+  | S i' =>
+    memb (root_particle tr) (bel g) && pomcp_coh A term h h 0 g (root_particle tr) tr &&
+    let '(g1, _, tr1, _) := pomcp_simulate A term disc rl h h 0 g (root_particle tr) tr in
+    pomcp_coh_loop A term disc rl i' h g1 tr1
+  end.
+
+Definition pomcp_coh_run A term disc rl (iters h : nat) (g : node) (tr : trace) : bool :=
+  if Nat.eqb h 0 then true else pomcp_coh_loop A term disc rl iters h g tr.
+
+Definition pomcp_coh_op A term disc rl iters (g : node) (op : pop) (tr : trace) : bool :=
+  match op with
+  | PFresh ps h => pomcp_coh_run A term disc rl iters h (Node 0 ps (resize A [])) tr
+  | PAdvance a o h ps =>
+    match find_kid o (kids (nth a (acts g) act0)) with
+    | None => pomcp_coh_run A term disc rl iters h (Node 0 ps (resize A [])) tr
+    | Some c =>
+      match bel c with
+      | [] => pomcp_coh_run A term disc rl iters h (Node 0 ps (resize A [])) tr
+      | _ :: _ => pomcp_coh_run A term disc rl iters h (allocate A c) tr
+      end
+    end
+  end.
+
+Fixpoint pomcp_coh_session A term disc rl iters (g : node) (ops : list (pop * trace)) : bool :=
+  match ops with
+  | [] => true
+  | (op, tr) :: t =>
+    pomcp_coh_op A term disc rl iters g op tr &&
+    let '(g', _, _, _) := pomcp_op A term disc rl iters g op tr in
+    pomcp_coh_session A term disc rl iters g' t
+  end.
